@@ -785,7 +785,9 @@ class SegmentWriter(IndexWriter):
                     # Call the format's word_values method to get posting values
                     vitems = vformat.word_values(value, analyzer, mode="index")
                     # Remove unused frequency field from the tuple
-                    vitems = sorted((text, weight, vbytes)
+                    # (with the same document/field boost as the postings)
+                    vboost = self._field_boost(fields, fieldname, docboost)
+                    vitems = sorted((text, weight * vboost, vbytes)
                                     for text, _, weight, vbytes in vitems)
                     perdocwriter.add_vector_items(fieldname, field, vitems)
 
